@@ -14,6 +14,7 @@ import vf
 import switch_tables as st
 import switch_cases as sc
 import switch_validation as sv
+import c18_unicode as cu
 
 LEVEL = "proof"
 
@@ -261,6 +262,18 @@ def validation_sweep(ctx, mods, data, versions, drv, tbl_lines, diffs):
     for v in ["init"] + versions:
         cases += sv.login_cases(v)
         cases += sv.device_cases(v, variants)
+    # non-ASCII text in every input with a length limit / format check (harness/c18_unicode.py): all of it on the constructor
+    # default and on one version chosen by the seed, a seed-chosen part on the other invitation versions (all of it everywhere in thorough)
+    n0 = len(cases)
+    uni_full = {"init", rng.choice(versions)} if quick else set(inv_versions)
+    for v in inv_versions + sorted(uni_full - set(inv_versions)):
+        cases += cu.cases(rng, v, sc.DOCUMENTED_LANGUAGES, v in uni_full)
+    for v in (api4 if not quick else sorted({api4[0], api4[-1], rng.choice(api4)}) if api4 else []) + ["init"]:
+        cases += cu.token_cases(rng, v)
+    for v in (versions if not quick else sorted({versions[0], versions[-1]} | {x for x in versions if x in (1701, 1800)})) + ["init"]:
+        cases += cu.login_cases(v)
+    ctx.extra["validation_nonascii_cases"] = len(cases) - n0
+    ctx.extra["validation_nonascii_full_versions"] = sorted(str(v) for v in uni_full)
 
     # the AES key of the API-3 ticket encryption is recorded on its way through (pass-through wrapper) so that the
     # ticket that was sent can be compared with the ticket that was given
@@ -356,7 +369,7 @@ def validation_sweep(ctx, mods, data, versions, drv, tbl_lines, diffs):
             for base in ["init", versions[0], 1412, 1800]:
                 if base != "init" and base not in versions: continue
                 ref = await sc.run_case(mods, {"client": client, "devid": devid, "ver": base, "cfg": {}, "call": call, "args": args})
-                for bad in sv.NOT_VERSIONS:
+                for bad in sv.NOT_VERSIONS + cu.not_versions(versions):
                     if isinstance(bad, (int, float)) and not isinstance(bad, bool) and bad in versions: continue
                     if isinstance(bad, bool) and int(bad) in versions: continue
                     cl = sc.make_client(mods, client, devid)
